@@ -160,6 +160,9 @@ def garblings(name, size, e):
 
 # ------------------------------------------------------------------------------ scenarios
 def file_arg(st, kind, name):
+    if kind == 'indexpath':
+        # the .tdms_index file itself is what the caller names (metadata of archived recordings, a glob over '*.tdms*')
+        return SIM_ROOT + name + '_index'
     return st.fs.stream(name) if kind == 'stream' else SIM_ROOT + name
 
 
@@ -229,10 +232,12 @@ def judge(st, res, label):
     return out
 
 
-def run_scenario(name, fn, kind, w, data, index, res, label, fail_at=None, fail_open=None, counts=None, interrupt=False):
+def run_scenario(name, fn, kind, w, data, index, res, label, fail_at=None, fail_open=None, counts=None, interrupt=False,
+                 no_data=False):
     """One execution in a fresh store; returns (violations, number of read events, raised?)."""
     with store(record=False) as st:
-        st.put('w.tdms', data)
+        if not no_data:
+            st.put('w.tdms', data)
         if index is not None:
             st.put('w.tdms_index', index)
         if fail_at is not None:
@@ -276,9 +281,11 @@ def execute(case):
         return only is None or (only[0] == phase and (name is None or only[1] == name) and (kind is None or only[2] == kind))
 
     flds = fields(data)
-    for kind in ('path', 'stream'):
+    for kind in ('path', 'stream') + (('indexpath',) if index is not None else ()):
         for name, fn in READ_SCENARIOS:
             if only is not None and not (only[1] == name and only[2] == kind):
+                continue
+            if kind == 'indexpath' and name == 'defragment':
                 continue
             # (1) fault free
             counts = {}
@@ -288,8 +295,16 @@ def execute(case):
                 v.sig.update(phase='fault-free', scenario=name, kind=kind)
             if want('fault-free', name, kind):
                 res.violations += vs
+            if kind == 'indexpath' and want('fault-free', name, kind):
+                # ... and with no data file beside it
+                vs, _n, _r = run_scenario(name, fn, kind, w, data, index, res, ' (no data file)', no_data=True)
+                res.sub_evals += 1
+                res.probe('index-file-alone')
+                for v in vs:
+                    v.sig.update(phase='fault-free', scenario=name, kind=kind)
+                res.violations += vs
             # (1b) every open() the library makes fails in turn (descriptor table full; an index file it may not read)
-            if kind == 'path' and (only is None or only[0] == 'open-fails'):
+            if kind in ('path', 'indexpath') and (only is None or only[0] == 'open-fails'):
                 for k in (range(counts.get('opens', 0)) if only is None else [only[3]]):
                     vs, _n, raised = run_scenario(name, fn, kind, w, data, index, res, ' with open() call %d failing' % k, fail_open=k)
                     res.sub_evals += 1
@@ -331,7 +346,7 @@ def execute(case):
                     if len(res.violations) > 3:
                         return res
             # (3) garbled fields (not for defragment: it reads through the same code as read)
-            if name != 'defragment' and (only is None or only[0] == 'corrupt'):
+            if name != 'defragment' and kind != 'indexpath' and (only is None or only[0] == 'corrupt'):
                 todo = []
                 if only is None:
                     for fi, (fname, off, size, e) in enumerate(flds):
